@@ -195,7 +195,8 @@ pub fn free(seed: u64, runs: usize, dir: &str, maxlen: usize) {
             0 => None,
             1 => Some((vec![], false)),
             _ => {
-                let members = rng.range(2, 5) as usize;
+                // (one run: thousands of tiny members, as a stream of bgzip blocks of a few bytes each would be)
+                let members = if i == 10 { 3000.min(total.max(2)) } else { rng.range(2, 5) as usize };
                 let mut cuts: Vec<usize> = (1..members).map(|_| rng.below(total as u64 + 1) as usize).collect();
                 // empty members occur in practice (cat of bgzip files: every bgzip file ends with an empty block)
                 match i % 12 {
